@@ -244,6 +244,182 @@ theorem lay_clauseCellOwner (H : ShufHyp ldim N w) (hL : IsLayout w w') : clause
   simp only [lay_ownerOf H hL q s' hq c hc, hos, lay_ownerOf H hL _ os hos c hmem]
   simp [h0, hmem]
 
+/-! ### the counting clause -/
+
+theorem nodup_eraseDups_aux {α : Type} [BEq α] [LawfulBEq α] :
+    ∀ (n : Nat) (l : List α), l.length ≤ n → l.eraseDups.Nodup := by
+  intro n
+  induction n with
+  | zero =>
+    intro l hl
+    have : l = [] := List.length_eq_zero_iff.mp (by omega)
+    subst this; simp
+  | succ n ih =>
+    intro l hl
+    cases l with
+    | nil => simp
+    | cons a as =>
+      rw [List.eraseDups_cons, List.nodup_cons]
+      constructor
+      · rw [List.mem_eraseDups, List.mem_filter]; simp
+      · apply ih
+        have := List.length_filter_le (fun b => !b == a) as
+        simp only [List.length_cons] at hl
+        omega
+
+theorem nodup_eraseDups {α : Type} [BEq α] [LawfulBEq α] (l : List α) : l.eraseDups.Nodup :=
+  nodup_eraseDups_aux l.length l (Nat.le_refl _)
+
+theorem mem_ownedGlobals (w : World RankState) (g : Int) :
+    g ∈ ownedGlobals w ↔ ∃ (q : Nat) (s : RankState), w[q]? = some s ∧ ∃ nd ∈ s.nodes, nd.part = (q : Int) ∧ nd.glob = g := by
+  unfold ownedGlobals RankState.ownedNodes
+  rw [List.mem_flatten]
+  constructor
+  · rintro ⟨l, hl, hg⟩
+    obtain ⟨sr, hsr, rfl⟩ := List.mem_map.mp hl
+    obtain ⟨nd, hnd, rfl⟩ := List.mem_map.mp hg
+    rw [List.mem_filter] at hnd
+    exact ⟨sr.2, sr.1, List.mem_zipIdx_iff_getElem?.mp hsr, nd, hnd.1, by simpa using hnd.2, rfl⟩
+  · rintro ⟨q, s, hs, nd, hnd, hp, rfl⟩
+    refine ⟨_, List.mem_map.mpr ⟨(s, q), List.mem_zipIdx_iff_getElem?.mpr hs, rfl⟩, ?_⟩
+    exact List.mem_map.mpr ⟨nd, List.mem_filter.mpr ⟨hnd, by simpa using hp⟩, rfl⟩
+
+theorem mem_ownedCellsAll (w : World RankState) (c : DCell) :
+    c ∈ ownedCellsAll w ↔ ∃ (q : Nat) (s : RankState), w[q]? = some s ∧ c ∈ s.cells ∧ s.ownerOf c = (q : Int) := by
+  unfold ownedCellsAll RankState.ownedCells
+  rw [List.mem_flatten]
+  constructor
+  · rintro ⟨l, hl, hc⟩
+    obtain ⟨sr, hsr, rfl⟩ := List.mem_map.mp hl
+    rw [List.mem_filter] at hc
+    exact ⟨sr.2, sr.1, List.mem_zipIdx_iff_getElem?.mp hsr, hc.1, by simpa using hc.2⟩
+  · rintro ⟨q, s, hs, hc, ho⟩
+    refine ⟨_, List.mem_map.mpr ⟨(s, q), List.mem_zipIdx_iff_getElem?.mpr hs, rfl⟩, ?_⟩
+    exact List.mem_filter.mpr ⟨hc, by simpa using ho⟩
+
+theorem mem_allCells (w : World RankState) (c : DCell) : c ∈ allCells w ↔ ∃ s ∈ w, c ∈ s.cells := by
+  unfold allCells
+  rw [List.mem_eraseDups, List.mem_flatten]
+  constructor
+  · rintro ⟨l, hl, hc⟩
+    obtain ⟨s, hs, rfl⟩ := List.mem_map.mp hl
+    exact ⟨s, hs, hc⟩
+  · rintro ⟨s, hs, hc⟩
+    exact ⟨_, List.mem_map.mpr ⟨s, hs, rfl⟩, hc⟩
+
+/-- the owned globals of the layout are the vertices of the mesh -/
+theorem lay_mem_owned (H : ShufHyp ldim N w) (hL : IsLayout w w') (g : Int) : g ∈ ownedGlobals w' ↔ Vw w g := by
+  rw [mem_ownedGlobals]
+  constructor
+  · rintro ⟨q, s', hs', nd, hnd, _, rfl⟩
+    exact ((lay_nodes hL q s' hs' nd).mp hnd).1
+  · intro hg
+    obtain ⟨h1, _⟩ := vw_facts H g hg
+    obtain ⟨o, ho, hmem⟩ := lay_owner H hL g hg
+    refine ⟨_, o, ho, _, hmem, ?_, rfl⟩
+    show partW w g = (((partW w g).toNat : Nat) : Int)
+    omega
+
+theorem lay_owned_nodup (hL : IsLayout w w') : (ownedGlobals w').Nodup := by
+  unfold ownedGlobals
+  apply nodup_flatten_zipIdx
+  · intro q s' hs'
+    exact (lay_nodupG hL q s' hs').sublist (List.Sublist.map _ List.filter_sublist)
+  · intro q r s' t' hs' ht' x hx hy
+    obtain ⟨nd, hnd, rfl⟩ := List.mem_map.mp hx
+    obtain ⟨md, hmd, hmg⟩ := List.mem_map.mp hy
+    unfold RankState.ownedNodes at hnd hmd
+    rw [List.mem_filter] at hnd hmd
+    have a1 := ((lay_nodes hL q s' hs' nd).mp hnd.1).2.1
+    have a2 := ((lay_nodes hL r t' ht' md).mp hmd.1).2.1
+    have b1 : nd.part = (q : Int) := by simpa using hnd.2
+    have b2 : md.part = (r : Int) := by simpa using hmd.2
+    rw [hmg, ← a1, b1] at a2
+    rw [b2] at a2
+    omega
+
+theorem lay_ownedCells_nodup (H : ShufHyp ldim N w) (hL : IsLayout w w') : (ownedCellsAll w').Nodup := by
+  unfold ownedCellsAll
+  apply nodup_flatten_zipIdx
+  · intro q s' hs'
+    exact (lay_nodupC hL q s' hs').sublist List.filter_sublist
+  · intro q r s' t' hs' ht' c hx hy
+    unfold RankState.ownedCells at hx hy
+    rw [List.mem_filter] at hx hy
+    have b1 : s'.ownerOf c = (q : Int) := by simpa using hx.2
+    have b2 : t'.ownerOf c = (r : Int) := by simpa using hy.2
+    rw [lay_ownerOf H hL q s' hs' c hx.1] at b1
+    rw [lay_ownerOf H hL r t' ht' c hy.1] at b2
+    omega
+
+/-- each distinct stored cell is owned on exactly one rank -/
+theorem lay_cells_length (H : ShufHyp ldim N w) (hL : IsLayout w w') :
+    (ownedCellsAll w').length = (allCells w').length := by
+  apply List.Perm.length_eq
+  have hnd : (allCells w').Nodup := nodup_eraseDups _
+  rw [List.perm_ext_iff_of_nodup (lay_ownedCells_nodup H hL) hnd]
+  intro c
+  rw [mem_ownedCellsAll, mem_allCells]
+  constructor
+  · rintro ⟨q, s', hs', hc, _⟩
+    exact ⟨s', mem_of_get hs', hc⟩
+  · rintro ⟨s', hs', hc⟩
+    obtain ⟨q, hq⟩ := List.getElem?_of_mem hs'
+    obtain ⟨os, hos, _, hmem, hcast⟩ := lay_cell_owner H hL q s' hq c hc
+    exact ⟨_, os, hos, hmem, by rw [lay_ownerOf H hL _ os hos c hmem, hcast]⟩
+
+/-- `0, 1, …, N-1` as global ids -/
+def idsUpTo (N : Nat) : List Int := (List.range N).map fun (i : Nat) => (i : Int)
+
+theorem mem_idsUpTo (N : Nat) (g : Int) : g ∈ idsUpTo N ↔ 0 ≤ g ∧ g < (N : Int) := by
+  unfold idsUpTo
+  rw [List.mem_map]
+  constructor
+  · rintro ⟨i, hi, rfl⟩
+    have := List.mem_range.mp hi
+    omega
+  · rintro ⟨h0, h1⟩
+    exact ⟨g.toNat, List.mem_range.mpr (by omega), by omega⟩
+
+theorem idsUpTo_nodup (N : Nat) : (idsUpTo N).Nodup := by
+  unfold idsUpTo
+  apply List.Nodup.map_on _ List.nodup_range
+  intro x _ y _ hxy
+  omega
+
+theorem idsUpTo_sorted (N : Nat) : (idsUpTo N).Pairwise (· ≤ ·) := by
+  unfold idsUpTo
+  rw [List.pairwise_map]
+  exact List.pairwise_lt_range.imp (by intro a b h; omega)
+
+/-- when the vertices of the mesh are exactly `0 … N-1`, so are the owned globals of the layout, sorted -/
+theorem lay_owned_ids (H : ShufHyp ldim N w) (hL : IsLayout w w')
+    (hids : ∀ g : Int, Vw w g ↔ 0 ≤ g ∧ g < (N : Int)) :
+    (ownedGlobals w').length = N ∧ sortGlob (ownedGlobals w') = idsUpTo N := by
+  have hperm : (ownedGlobals w').Perm (idsUpTo N) := by
+    rw [List.perm_ext_iff_of_nodup (lay_owned_nodup hL) (idsUpTo_nodup N)]
+    intro g
+    rw [lay_mem_owned H hL, mem_idsUpTo, hids]
+  refine ⟨?_, ?_⟩
+  · rw [hperm.length_eq]; simp [idsUpTo]
+  · exact List.Perm.eq_of_pairwise (le := fun (a b : Int) => a ≤ b) (fun a b _ _ h1 h2 => Int.le_antisymm h1 h2)
+      (Refine.Lemmas.Dist.sortGlob_sorted _) (idsUpTo_sorted N)
+      ((Refine.Lemmas.Dist.sortGlob_perm _).trans hperm)
+
+theorem lay_clauseCounts (H : ShufHyp ldim N w) (hL : IsLayout w w')
+    (hids : ∀ g : Int, Vw w g ↔ 0 ≤ g ∧ g < (N : Int)) (hN : ∀ s ∈ w, s.newN = (N : Int)) :
+    clauseCounts w' = true := by
+  obtain ⟨hlen, hsort⟩ := lay_owned_ids H hL hids
+  unfold clauseCounts
+  simp only [Bool.and_eq_true, Bool.or_eq_true, beq_iff_eq, List.all_eq_true]
+  refine ⟨⟨⟨nodupB_of_nodup _ (lay_owned_nodup hL), nodupB_of_nodup _ (lay_ownedCells_nodup H hL)⟩,
+    lay_cells_length H hL⟩, Or.inr ⟨?_, ?_⟩⟩
+  · intro s' hs'
+    obtain ⟨q, hq⟩ := List.getElem?_of_mem hs'
+    obtain ⟨s, hs, _, hn, _⟩ := lay_rank hL q s' hq
+    rw [hn, hN s (mem_of_get hs), hlen]
+  · rw [hsort, hlen]; rfl
+
 end Lay
 
 end Refine.Lemmas.ShufflinInv
